@@ -13,6 +13,7 @@ import (
 	"gonum.org/v1/gonum/graph/encoding"
 	"gonum.org/v1/gonum/graph/encoding/dot"
 	"gonum.org/v1/gonum/graph/multi"
+	"gonum.org/v1/gonum/graph/simple"
 	"verif/simrt"
 )
 
@@ -34,8 +35,12 @@ func (n *dtNode) DOTID() string      { return n.id }
 
 type dtLine struct {
 	graph.Line
-	attrs map[string]string
+	attrs          map[string]string
+	fp, fc, tp, tc string
 }
+
+func (l *dtLine) SetFromPort(port, compass string) error { l.fp, l.fc = port, compass; return nil }
+func (l *dtLine) SetToPort(port, compass string) error   { l.tp, l.tc = port, compass; return nil }
 
 func (l *dtLine) SetAttribute(a encoding.Attribute) error {
 	if l.attrs == nil {
@@ -52,13 +57,30 @@ func (g dtGraph) NewLine(from, to graph.Node) graph.Line {
 	return &dtLine{Line: g.DirectedGraph.NewLine(from, to)}
 }
 
+// dtEdge / dtSimple: a simple directed destination for dot.Unmarshal whose
+// edges store ports.
+type dtEdge struct {
+	graph.Edge
+	fp, fc, tp, tc string
+}
+
+func (e *dtEdge) SetFromPort(port, compass string) error { e.fp, e.fc = port, compass; return nil }
+func (e *dtEdge) SetToPort(port, compass string) error   { e.tp, e.tc = port, compass; return nil }
+
+type dtSimple struct{ *simple.DirectedGraph }
+
+func (g dtSimple) NewNode() graph.Node { return &dtNode{Node: g.DirectedGraph.NewNode()} }
+func (g dtSimple) NewEdge(from, to graph.Node) graph.Edge {
+	return &dtEdge{Edge: g.DirectedGraph.NewEdge(from, to)}
+}
+
 func init() {
 	register(&Scenario{Name: "dot-text", Run: runDotText})
 }
 
 func runDotText(c *Ctx) *Violation {
 	t := c.T
-	c.Declare("subgraph_to_subgraph_edge", "chained_edge_statement", "nested_subgraph_endpoint", "declared_node_in_subgraph_endpoint", "attribute_statement", "parse_stream_error_injected", "parse_stream_chunked")
+	c.Declare("subgraph_to_subgraph_edge", "chained_edge_statement", "nested_subgraph_endpoint", "declared_node_in_subgraph_endpoint", "attribute_statement", "parse_stream_error_injected", "parse_stream_chunked", "port_on_chain_vertex", "simple_destination_checked")
 	next := 0
 	fresh := func() string {
 		next++
@@ -68,17 +90,40 @@ func runDotText(c *Ctx) *Violation {
 	type vertex struct {
 		text  string
 		nodes []string
+		port  string // "port:compass" of a node vertex in an edge statement ("" = none)
+	}
+	// withPort decorates a node vertex of an edge statement with a port
+	withPort := func(v vertex) vertex {
+		switch t.Choose(simrt.KWorkload, 6) {
+		case 3:
+			v.port = fmt.Sprintf("p%d:", t.Choose(simrt.KValue, 3))
+		case 4:
+			v.port = ":" + []string{"n", "se", "w", "c", "_"}[t.Choose(simrt.KValue, 5)]
+		case 5:
+			v.port = fmt.Sprintf("p%d:%s", t.Choose(simrt.KValue, 3), []string{"n", "se", "w", "c"}[t.Choose(simrt.KValue, 4)])
+		}
+		if v.port != "" {
+			v.text += ":" + strings.Trim(v.port, ":")
+			c.Probe("port_on_chain_vertex", 1)
+		}
+		return v
 	}
 	var mkVertex func(depth int) vertex
 	mkVertex = func(depth int) vertex {
 		switch k := t.Choose(simrt.KWorkload, 4); {
 		case k == 0 && len(declared) > 0:
 			id := declared[t.Choose(simrt.KWorkload, len(declared))]
-			return vertex{id, []string{id}}
+			if depth == 0 {
+				return withPort(vertex{id, []string{id}, ""})
+			}
+			return vertex{id, []string{id}, ""}
 		case k <= 1:
 			id := fresh()
 			declared = append(declared, id)
-			return vertex{id, []string{id}}
+			if depth == 0 {
+				return withPort(vertex{id, []string{id}, ""})
+			}
+			return vertex{id, []string{id}, ""}
 		default:
 			n := 1 + t.Choose(simrt.KWorkload, 3)
 			var ids []string
@@ -129,7 +174,7 @@ func runDotText(c *Ctx) *Violation {
 			}
 			// the nodes are declared from now on
 			defer func() { declared = append(declared, ids...) }()
-			return vertex{text, ids}
+			return vertex{text, ids, ""}
 		}
 	}
 	want := map[string]int{}
@@ -153,7 +198,7 @@ func runDotText(c *Ctx) *Violation {
 				}
 				for _, a := range vs[i-1].nodes {
 					for _, b := range v.nodes {
-						want[a+"->"+b]++
+						want[a+"->"+b+" from["+vs[i-1].port+"] to["+v.port+"]"]++
 					}
 				}
 			}
@@ -193,7 +238,14 @@ func runDotText(c *Ctx) *Violation {
 			ls := edges.Edge().(multi.Edge)
 			for ls.Next() {
 				l := ls.Line()
-				got[ids[l.From().ID()]+"->"+ids[l.To().ID()]]++
+				port := func(p, cp string) string {
+					if p == "" && cp == "" {
+						return ""
+					}
+					return p + ":" + cp
+				}
+				dl := l.(*dtLine)
+				got[ids[l.From().ID()]+"->"+ids[l.To().ID()]+" from["+port(dl.fp, dl.fc)+"] to["+port(dl.tp, dl.tc)+"]"]++
 			}
 		}
 		var keys []string
@@ -213,6 +265,66 @@ func runDotText(c *Ctx) *Violation {
 		}
 		if len(ids) != next {
 			return viol("dot-text/UnmarshalMulti/node-count", "the document names %d nodes, the decoded graph has %d\n%s", next, len(ids), doc)
+		}
+		// the same document into a simple directed graph (dot.Unmarshal has
+		// its own edge-statement code): decided when no ordered pair occurs
+		// twice and there is no self loop, so that a simple graph can hold
+		// exactly the document's edges
+		simpleOK := true
+		for k, n := range want {
+			ft := strings.SplitN(strings.SplitN(k, " ", 2)[0], "->", 2)
+			if n != 1 || ft[0] == ft[1] {
+				simpleOK = false
+			}
+		}
+		pairs := map[string]int{}
+		for k := range want {
+			pairs[strings.SplitN(k, " ", 2)[0]]++
+		}
+		for _, n := range pairs {
+			if n != 1 {
+				simpleOK = false
+			}
+		}
+		if simpleOK {
+			c.Probe("simple_destination_checked", 1)
+			c.Oracle("edge-statement-semantics-simple")
+			sd := dtSimple{simple.NewDirectedGraph()}
+			if err := dot.Unmarshal([]byte(doc), sd); err != nil {
+				return viol("dot-text/Unmarshal/rejected", "a valid DOT document is rejected by Unmarshal: %v\n%s", err, doc)
+			}
+			sids := map[int64]string{}
+			ns := sd.Nodes()
+			for ns.Next() {
+				sids[ns.Node().ID()] = ns.Node().(*dtNode).id
+			}
+			sgot := map[string]int{}
+			es := sd.Edges()
+			for es.Next() {
+				e := es.Edge().(*dtEdge)
+				port := func(p, cp string) string {
+					if p == "" && cp == "" {
+						return ""
+					}
+					return p + ":" + cp
+				}
+				sgot[sids[e.From().ID()]+"->"+sids[e.To().ID()]+" from["+port(e.fp, e.fc)+"] to["+port(e.tp, e.tc)+"]"]++
+			}
+			var all []string
+			for k := range want {
+				all = append(all, k)
+			}
+			for k := range sgot {
+				if _, ok := want[k]; !ok {
+					all = append(all, k)
+				}
+			}
+			sort.Strings(all)
+			for _, k := range all {
+				if want[k] != sgot[k] {
+					return viol("dot-text/Unmarshal/edge-statement-semantics", "edge %s: the document's edge statements create it %d time(s), dot.Unmarshal into a simple directed graph %d time(s)\n%s", k, want[k], sgot[k], doc)
+				}
+			}
 		}
 		return nil
 	})
